@@ -231,23 +231,29 @@ def body(chk: core.Check):
     r, _m = sol.check(z3.InRe(z3.String("s"), z3.Intersect(nonl, Lc, z3.Complement(z3.Concat(rb, rg, ra)))))
     chk.canary("routing regex without anchors (in-memory pattern)", r == "sat")
 
-    # ---- (3) implicit routing: variable extraction and per-segment disambiguation (BSTR) ---------
-    if chk.only("implicit"):
-        _renamers.check_field_headers(chk, quick)
-        _renamers.check_field_header_disambiguated(chk, quick)
+    # ---- (3) implicit routing (BSTR) and (2) header assembly in the emitted client methods (CrossHair), concurrently
+    g = _client.render(chk)
+    hm = ch.load_module(_client.HARNESS, {"VERIF_EMITTED": g.outdir})
+    _client.encode_sources(chk, g, ["route_simple", "route_rename", "route_override", "route_multi", "route_nested", "update_book"])
 
-    # ---- (2) header assembly in the emitted client methods (CrossHair) --------------------------
-    if chk.only("assembly"):
-        g = _client.render(chk)
-        hm = ch.load_module(_client.HARNESS, {"VERIF_EMITTED": g.outdir})
-        _client.encode_sources(chk, g, ["route_simple", "route_rename", "route_multi", "route_nested", "update_book"])
-        _client.run_funcs(chk, g, ["flat_move_book", "flat_update_book", "flat_tag_book"], "header-assembly-implicit",
+    def part_implicit(r):
+        core.parallel_parts(r, [(_renamers.check_field_headers, quick), (_renamers.check_field_header_disambiguated, quick)])
+
+    def part_flat(r):
+        _client.run_funcs(r, g, ["flat_move_book", "flat_update_book", "flat_tag_book"], "header-assembly-implicit",
                           timeout, partitions=_client.KIND_PARTS)
+
+    def part_routes(r):
         _client.run_funcs(
-            chk, g, hm.C06_FUNCS, "header-assembly", timeout,
-            partitions=_client.KIND_PARTS[1:],
+            r, g, hm.C06_FUNCS, "header-assembly", timeout, partitions=_client.KIND_PARTS[1:],
             twins=[("twin_route", "route_multi with a three-level table name reaches the final comparison")],
             canaries=[("first-wins", "route_multi", "first parameter with a key wins instead of the last (in-memory mutant)")])
+    parts = []
+    if chk.only("implicit"):
+        parts.append(part_implicit)
+    if chk.only("assembly"):
+        parts += [part_flat, part_routes]
+    core.parallel_threads(chk, parts)
 
 
 def replay(chk, data):
